@@ -9,7 +9,7 @@ PROTO_SAMPLE = ["v3n", "v3a_md5", "v3a_sha", "v3p_md5", "v3p_sha"]
 
 
 def consts(cand, rootc, maxroots, bulks, faulty, modes='{"strict"}', **pins):
-    c = dict(Cand=("<-", cand), RootCand=("<-", rootc), MaxRoots=maxroots, BulkSizes=bulks, Faulty=faulty, ErrorModes=modes)
+    c = dict(Cand=("<-", cand), RootCand=("<-", rootc), MaxRoots=maxroots, BulkSizes=bulks, Faulty=faulty, ErrorModes=modes, FaultyRange=("<-", cand))
     c.update(PINS)
     c.update(pins)
     return c
